@@ -112,7 +112,19 @@ pub fn run(opts: &Opts) -> Report {
                 ops_done.push("structured:backfill".into());
                 continue;
             }
-            let t = if rng.chance(1, 10) { "unknown-thread".to_string() } else { rng.pick(&threads).clone() };
+            // an id that names no thread: a plain unknown one, or one that — joined to a cache
+            // directory — spells one of the store's own files (thread ids are not file names)
+            let unknown_id = rng.chance(1, 8);
+            let t = if unknown_id {
+                rng.pick(&["unknown-thread", "../events", "../events.jsonl", "../continuities/index", "../../data/events", "..", ".", "../verif-events", "a/../../events"]).to_string()
+            } else {
+                rng.pick(&threads).clone()
+            };
+            if unknown_id && t != "unknown-thread" {
+                rep.count("calls_with_a_path_like_thread_id");
+            }
+            // the same id as one path segment of a request URI
+            let t_uri = t.replace('%', "%25").replace('/', "%2F");
             let stride = *rng.pick(&nums);
             let other = *rng.pick(&nums);
             if structured && op_no + 4 >= nops {
@@ -154,7 +166,7 @@ pub fn run(opts: &Opts) -> Report {
             let (name, read_only): (String, bool) = match pick {
                 0..=3 => {
                     let k = rng.range(1, 5) as usize;
-                    if t != "unknown-thread" {
+                    if !unknown_id {
                         random_history(&store, &t, &mut rng, k, &mut msgs);
                     } else {
                         let _ = store.append_message(&t, "u".into(), "cli".into(), "x".into());
@@ -236,35 +248,35 @@ pub fn run(opts: &Opts) -> Report {
                 }
                 16 => {
                     let _ = rt.block_on(call(&app.router, "GET", "/threads", None));
-                    let _ = rt.block_on(call(&app.router, "GET", &format!("/threads/{t}"), None));
+                    let _ = rt.block_on(call(&app.router, "GET", &format!("/threads/{t_uri}"), None));
                     ("http_list_get".into(), true)
                 }
                 17 => {
-                    let _ = rt.block_on(call(&app.router, "POST", &format!("/threads/{t}/compaction-cut-points"), Some(json!({"stride_messages": stride, "limit": other}))));
+                    let _ = rt.block_on(call(&app.router, "POST", &format!("/threads/{t_uri}/compaction-cut-points"), Some(json!({"stride_messages": stride, "limit": other}))));
                     ("http_cut_points".into(), true)
                 }
                 18 => {
-                    let _ = rt.block_on(call(&app.router, "POST", &format!("/threads/{t}/compaction-status"), Some(json!({"stride_messages": stride}))));
+                    let _ = rt.block_on(call(&app.router, "POST", &format!("/threads/{t_uri}/compaction-status"), Some(json!({"stride_messages": stride}))));
                     ("http_compaction_status".into(), true)
                 }
                 19 => {
-                    let _ = rt.block_on(call(&app.router, "POST", &format!("/threads/{t}/provider-cursor-status"), Some(json!({}))));
-                    let _ = rt.block_on(call(&app.router, "POST", &format!("/threads/{t}/context-selection-status"), Some(json!({"limit": other}))));
+                    let _ = rt.block_on(call(&app.router, "POST", &format!("/threads/{t_uri}/provider-cursor-status"), Some(json!({}))));
+                    let _ = rt.block_on(call(&app.router, "POST", &format!("/threads/{t_uri}/context-selection-status"), Some(json!({"limit": other}))));
                     ("http_status".into(), true)
                 }
                 20 => {
                     // open the SSE stream and drop it
                     rt.block_on(async {
-                        let _ = sse_collect(&app.router, &format!("/threads/{t}/events"), 30, |_| false).await;
+                        let _ = sse_collect(&app.router, &format!("/threads/{t_uri}/events"), 30, |_| false).await;
                     });
                     ("http_stream_open".into(), true)
                 }
                 21 => {
-                    let _ = rt.block_on(call(&app.router, "POST", &format!("/threads/{t}/compaction-auto"), Some(json!({"stride_messages": stride, "dry_run": true, "actor_id": "u", "origin": "cli"}))));
+                    let _ = rt.block_on(call(&app.router, "POST", &format!("/threads/{t_uri}/compaction-auto"), Some(json!({"stride_messages": stride, "dry_run": true, "actor_id": "u", "origin": "cli"}))));
                     ("http_auto_dry_run".into(), true)
                 }
                 22 => {
-                    let _ = rt.block_on(call(&app.router, "POST", &format!("/threads/{t}/compaction-auto-schedule"), Some(json!({"stride_messages": stride, "dry_run": true, "actor_id": "u", "origin": "cli"}))));
+                    let _ = rt.block_on(call(&app.router, "POST", &format!("/threads/{t_uri}/compaction-auto-schedule"), Some(json!({"stride_messages": stride, "dry_run": true, "actor_id": "u", "origin": "cli"}))));
                     ("http_schedule_dry_run".into(), true)
                 }
                 23 => {
@@ -288,7 +300,7 @@ pub fn run(opts: &Opts) -> Report {
             };
             rep.evaluations += 1;
             let after = read();
-            let case = json!({"case": case_no, "ops_before": ops_done, "op": name, "thread": if t == "unknown-thread" { "unknown" } else { "known" }, "stride": stride, "other": other});
+            let case = json!({"case": case_no, "ops_before": ops_done, "op": name, "thread": if unknown_id { t.as_str() } else { "known" }, "stride": stride, "other": other});
             check_step(&mut rep, &before, &after, read_only, &name, &case);
             rep.count(&format!("op_{}", name.split('(').next().unwrap_or("?")));
             ops_done.push(name);
